@@ -499,8 +499,16 @@ def stale_length_rule(rep, fn):
             n += 1
             inst = "stale-length:%s(%s,%s)" % (c["fn"], cur["n"], ln_["n"])
             desc = "%s: the length '%s' handed to %s with the cursor '%s' was computed from the cursor's current value" % (fn.name, ln_["n"], c["fn"], cur["n"])
+            def _forward_reseat(x3):
+                # cur = finder(cur, ...): the result lies at or after the old position
+                if not (x3.get("k") == "bin" and x3["op"] == "="):
+                    return False
+                y3 = core.strip_casts(x3["y"])
+                return y3 is not None and y3.get("k") == "call" and (y3.get("fn") or "").startswith(FINDERS) and \
+                    y3.get("args") and core.is_ref(core.strip_casts(y3["args"][0]), id=cur.get("id"))
             moved = [(p3, x3) for p3, x3 in mods.get(cur.get("id"), []) if p3 != dpos and p3 != pos and fn.pos_dominates(dpos, p3) and
-                     fn.pos_dominates(p3, pos) and ((x3.get("k") == "un" and "++" in x3["op"]) or (x3.get("k") == "bin" and x3["op"] == "+="))]
+                     fn.pos_dominates(p3, pos) and ((x3.get("k") == "un" and "++" in x3["op"]) or (x3.get("k") == "bin" and x3["op"] == "+=") or
+                                                    _forward_reseat(x3))]
             if moved:
                 rep.violated("R-STALE", fn, inst, desc, "'%s' was computed at line %s, '%s' moved at line %s, and the call at line %s still passes the old "
                              "length: the callee may read that many bytes past the end" % (ln_["n"], dx.get("ln"), cur["n"], moved[0][1].get("ln"), c.get("ln")), c.get("ln"))
